@@ -20,6 +20,11 @@ func main() {
 	z.Add("www.shop.test. 300 IN A 192.0.2.200", "alias.shop.test. 300 IN CNAME www.shop.test.", "*.wild.shop.test. 60 IN TXT \"w\"")
 	u := w.AddZone("plain.test.", l3.ZoneOpts{Signed: false})
 	u.Add("www.plain.test. 300 IN A 192.0.2.201")
+	s2 := w.AddServer("shop.test.")
+	s3 := w.AddServer("shop.test.")
+	_ = s3
+	z.Servers[0].SetBehaviour(l3.Behaviour{Rcode: func(dns.Question) int { return dns.RcodeServerFailure }})
+	s2.SetBehaviour(l3.Behaviour{Rcode: func(dns.Question) int { return dns.RcodeRefused }})
 	p := l3.NewPipe(w, l3.PipeOpts{DNSSEC: true})
 	defer p.Close()
 	for _, q := range []struct {
